@@ -966,7 +966,7 @@ def run(rep: Report, ctx: Any) -> str:
     rep.floor("skeleton_events", n_events, 7500)
     rep.floor("identifier_hole_sites", n_sites, 10)
     rep.floor("wire_name_roots", n_raw, 3)
-    rep.floor("overlapping_hole_classes", n_pairs, 40)
+    rep.floor("overlapping_hole_classes", n_pairs, 59)
     rep.floor("prepared_format_strings", n_fmt, 1)
     rep.indexed["skeleton_truncated_recursions"] = w.truncated
 
